@@ -238,6 +238,7 @@ func bubble(p *Plan, world *World, v *Variant, opts ExecOpts, out *Outcome) {
 		default:
 			panic("verifsim: unknown harness " + p.Harness)
 		}
+		d.MarkReturn()
 	}()
 	out.Hang = schedule(d, v, done, out)
 	if !out.Hang {
